@@ -20,6 +20,7 @@ type externH struct {
 
 var compStopped = Comp{"$stopped", "(Array Int Bool)", false}
 var compArmedDelay = Comp{"$armedDelay", "(Array Int Int)", false}
+var compArmedAt = Comp{"$armedAt", "(Array Int Int)", false} // ghost clock value at which a timer was armed
 var compArmedFn = Comp{"$armedFn", "(Array Int Int)", false}
 var compLogsRemoved = Comp{"$logsRemoved", "(Array Int Bool)", false}
 var compUUIDFailed = Comp{"$uuidFailed", "Bool", false}
@@ -144,11 +145,12 @@ func initExterns() {
 	for _, n := range []string{"github.com/friendsofgo/errors.Wrap", "github.com/friendsofgo/errors.Wrapf", "github.com/friendsofgo/errors.WithMessage", "github.com/friendsofgo/errors.WithStack"} {
 		wrap(n)
 	}
-	externs["time.AfterFunc"] = &externH{mods: []string{"$alloc", "$pub", "$armedDelay", "$armedFn", "$stopped"}, doc: "time.AfterFunc(d,f) returns a fresh non-nil timer armed with delay d and callback f",
+	externs["time.AfterFunc"] = &externH{mods: []string{"$alloc", "$pub", "$armedDelay", "$armedAt", "$armedFn", "$stopped"}, doc: "time.AfterFunc(d,f) returns a fresh non-nil timer armed with delay d and callback f",
 		fn: func(tr *FnCtx, st *State, args []*Val, resT types.Type, instr ssa.Instruction, mode string) *Val {
 			tr.use("time.AfterFunc returns a fresh non-nil *Timer; it calls f once, not earlier than d, unless stopped (timing itself is not modelled)")
 			t := tr.newObj(st)
 			tr.set(st, compArmedDelay, store(tr.cur(st, compArmedDelay), t, args[0].one()))
+			tr.set(st, compArmedAt, store(tr.cur(st, compArmedAt), t, tr.cur(st, compClock)))
 			fnid := "0"
 			if args[1].Clos != nil {
 				fnid = tr.fnConst(args[1].Clos.Fn)
